@@ -829,6 +829,12 @@ def run(tier, replay=None):
             info = stored.get("case", {})
             full = info.get("full") if isinstance(info, dict) else None
             print(json.dumps({"clause": stored.get("clause"), "case": {k: v for k, v in info.items() if k != "full"}}, indent=1)[:6000])
+            if not full and isinstance(info, dict) and info.get("input_lines"):
+                rec = fork_map(_hist_session, [(0, info["input_lines"])], nproc=1)[0][0]
+                print("observed output rows:", len(rec["out"]), json.dumps(rec["out"][:5]), "...")
+                res, rej = validate_trace_all("TraceVoroPP", [{k: v for k, v in rec.items() if k not in ("error", "sid")}])
+                print("replayed:", ("VIOLATION " + rej[0][1]) if rej else "ok (accepted by TraceVoroPP on this tree)")
+                return 1 if rej else 0
             if not full:
                 print("replay: a trace record (direction B); re-run the check with the same VERIF_SEED to reproduce")
                 return 0
@@ -915,6 +921,8 @@ def run(tier, replay=None):
                     if rec["op"] in ("run", "files", "read") and "sid" in rec:
                         brief["call"] = next(({k: v for k, v in r["c"].items() if k in ("kind", "ppp", "radii")}
                                               for r in recs if r.get("sid") == rec["sid"] and r["op"] == "begin"), None)
+                    if label == "trace:hist":
+                        brief["input_lines"] = rec["lines"]          # complete input: --replay re-runs it
                     key = KEY_TOP50 if clause.startswith("OnlyTop50") else None
                     chk.violation(f"{label}:{rec['op']}:{clause}", brief, finding_key=key)
                     skip_sid.add(rec.get("sid"))
